@@ -333,6 +333,21 @@ def as_str(v):
 import functools
 
 
+def _impl_segment(c, i):
+    """is the group `::<impl ...>` starting at i a path segment (followed by `::`) rather than the turbofish of the last name?"""
+    depth = 0
+    j = i + 2
+    while j < len(c):
+        if c[j] == '<':
+            depth += 1
+        elif c[j] == '>' and c[j - 1] != '-':
+            depth -= 1
+            if depth == 0:
+                return c.startswith('::', j + 1)
+        j += 1
+    return True
+
+
 @functools.lru_cache(maxsize=None)
 def strip_generics(c):
     """remove turbofish groups ::<...> (nested); keeps <impl ...> groups"""
@@ -340,7 +355,7 @@ def strip_generics(c):
     i = 0
     n = len(c)
     while i < n:
-        if c.startswith('::<', i) and not c.startswith('::<impl ', i):
+        if c.startswith('::<', i) and not (c.startswith('::<impl ', i) and _impl_segment(c, i)):
             depth = 0
             j = i + 2
             while j < n:
@@ -642,8 +657,8 @@ class Machine:
             r = self.place_ref(fr, pl[1]).get()
             if isinstance(r, Ref):
                 return r
-            if isinstance(r, (str, SymVal)):
-                return Ref([r], 0)      # &str is modelled by value
+            if isinstance(r, (str, SymVal, bytes, list)):
+                return Ref([r], 0)      # &str / &[u8] / a slice are modelled by value
             raise Unsupported('deref of %r' % (r,))
         if k == 'field':
             WR = r'std::mem::(ManuallyDrop|MaybeDangling|MaybeUninit)<'
@@ -887,6 +902,9 @@ class Machine:
         raise Unsupported('rvalue ' + k)
 
     def make_adt(self, path, args, dest_ty=None):
+        if re.search(r' as (for<[^>]*> )?(unsafe )?(extern "[^"]*" )?fn\(', path):
+            # a function item (or a tuple-variant constructor) coerced to a function pointer
+            return ('item', path.split(' as ')[0].strip())
         segs = [x for x in strip_generics_path(path).split('::') if x]
         if len(segs) == 1 and dest_ty:
             # MIR prints variants of some foreign enums without their path (`_1 = BrokenPipe;`): the local's type decides
